@@ -84,19 +84,26 @@ def gen_cases(ctx):
         if ctx.take(i):
             yield {"faults": shape}
         i += 1
+    # exhaustive short histories and random long ones alternate, so that a time cap (a loaded machine) thins both
     L = 3 if ctx.quick else 4
+    exh = []
     for n in range(1, L + 1):
         for combo in itertools.product(range(len(ALPHA)), repeat=n):
-            if ctx.take(i):
-                yield {"ops": [copy.deepcopy(ALPHA[k]) for k in combo], "exh": True}
-            i += 1
+            exh.append({"ops": [copy.deepcopy(ALPHA[k]) for k in combo], "exh": True})
     rng = ctx.grng("rand")
+    rnd = []
     for _ in range(ctx.budget(1000, 50000)):
         ops = [rand_op(rng) for _ in range(rng.choice([5, 10, 20, 40]))]
+        rnd.append({"ops": ops, "proc": rng.random() < 0.03})
+    merged = []
+    for k in range(max(len(exh), len(rnd))):
+        if k < len(rnd):
+            merged.append(rnd[k])
+        if k < len(exh):
+            merged.append(exh[k])
+    for c in merged:
         if ctx.take(i):
-            yield {"ops": ops, "proc": rng.random() < 0.03}
-        else:
-            rng.random()
+            yield c
         i += 1
 
 
